@@ -16,6 +16,7 @@ MAP = [
  ("69ecb2e", ["C01"], 4000), ("d26ff9f", ["C02", "C13"], 4000), ("6d75254", ["C07", "C09"], 4000), ("6af8f1c", ["C11"], 4000), ("76533b9", ["C12"], 3000),
  ("9f3051f", ["C07"], 3000), ("1ee9d9f", ["C18"], 3000), ("5240efb", ["C11"], 3000), ("69a5ce0", ["C05"], 3000),
  ("f9b49cf", ["C08"], 4000), ("e5c9492", ["C12"], 4000),
+ ("c76dfc6", ["C18"], 4000), ("0052f8e", ["C08"], 4000),
  ("5dd8649", ["C09"], 3000), ("cac7530", ["C09"], 3000), ("f6c97b4", ["C18"], 4000), ("f2a9d68", ["C08", "C18"], 4000), ("7096a08", ["C01", "C05"], 4000),
 ]
 only = sys.argv[1:]
